@@ -217,6 +217,8 @@ func runC01(c *report.Ctx) {
 	ruleRelevantIndex(c, 4)
 	ruleNoMemoryTipUnderUpdate(c)
 	ruleFlagByteRMW(c)
+	ruleCursorPullback(c)
+	ruleNotificationsQueued(c)
 }
 
 func phiHasAppend(ph *ssa.Phi, depth int) bool {
